@@ -6,6 +6,7 @@
 From Coq Require Import ZArith List.
 From FV Require Import Base.Res Base.Bytes Model.Headers Model.Receivers Model.Context
   Proofs.HeadersMapProofs Proofs.ContextProofs.
+From FV Require Gen.Consts Proofs.ConstsAgree.
 From FV Require Import Gen.CtxLockSites Model.LockPaths Proofs.LockPathsProofs.
 Import ListNotations.
 Open Scope Z_scope.
@@ -116,6 +117,18 @@ Theorem c17_guarded_accesses_never_conflict : forall paths sched s i j ti tj,
   about_to ti CWrite -> ~ about_to tj CWrite /\ ~ about_to tj CRead.
 Proof. exact no_conflicting_access. Qed.
 Print Assumptions c17_guarded_accesses_never_conflict.
+
+(** the default timeout and the reserved header names of the model are the constants of lib/go as they
+    are now (Gen/Consts.v is regenerated from the source on every build) *)
+Theorem c17_constants_are_the_sources :
+  Context.default_timeout_ms * Context.ns_per_ms = Consts.go_defaultTimeout
+  /\ Receivers.opid_header = Consts.go_opIDHeader /\ Context.cid_header = Consts.go_cidHeader
+  /\ Context.timeout_header = Consts.go_timeoutHeader.
+Proof.
+  split; [exact ConstsAgree.default_timeout_agrees|].
+  destruct ConstsAgree.header_names_agree as (A & B & C & _). auto.
+Qed.
+Print Assumptions c17_constants_are_the_sources.
 
 (** non-vacuity: a history with a created, a cloned and a received context, header writes on both
     sides of the clone and a write into a getter's copy *)
